@@ -1,6 +1,7 @@
 import FitProps.CsvLemmas
 import FitProps.CsvRoundtripLemmas
 import FitProps.CsvFullLemmas
+import FitProps.CsvTextLemmas
 /-!
 # C19 — fitconv: FIT to CSV and back preserves messages and field values
 
@@ -332,5 +333,56 @@ theorem C19_raw_roundtrip_partial (ar : Arith) (o : Opts) (hdeg : o.degrees = fa
 /-- non-vacuity: the invalid uint16 of a field with scale 1 -/
 example : parseCellValue Arith.id (cellPieces (formatAtoms (.uint16 65535))) btUint16 false false Csv.f64One 0 [109] = .ok (.uint16 65535) := by
   decide +kernel
+
+/-! ## the text layer: the `copy` pass -/
+
+/-- the full statement for the `copy` pass of FITToCSVConv (header written, then every line of the temporary buffer
+copied, padded with the missing commas unless trimming): EVERY line the converter wrote for a message reaches the CSV.
+FALSE on the pinned tree — KF-C19-7, `C19_copy_long_line_lost`. -/
+def C19_copy_all_lines_full : Prop :=
+  ∀ (o : Opts) (k : Nat) (ls : List Txt), (∀ x ∈ ls, commasOutside false x ≤ k) →
+    copyLines o k ls = some (if o.trim then ls else ls.map (padLine k))
+
+/-- **Every line reaches the CSV, padded to the header's comma count** — proved for lines SHORTER than 65536 bytes
+(`scanLimit` = `bufio.MaxScanTokenSize`), or with the trim option (`io.Copy`): the hypothesis excludes exactly the class of
+KF-C19-7. -/
+theorem C19_copy_all_lines_partial (o : Opts) (k : Nat) (ls : List Txt) (hc : ∀ x ∈ ls, commasOutside false x ≤ k)
+    (hshort : o.trim = true ∨ ∀ x ∈ ls, x.length < scanLimit) :
+    copyLines o k ls = some (if o.trim then ls else ls.map (padLine k)) := by
+  cases ht : o.trim
+  · rcases hshort with h | h
+    · rw [ht] at h; cases h
+    · simp only [Bool.false_eq_true, ↓reduceIte]
+      exact copyLines_short o k ht ls (fun x hx => ⟨h x hx, hc x hx⟩)
+  · simp only [↓reduceIte]
+    exact copyLines_trim o k ht ls
+
+/-- **KF-C19-7 (open): a line of 65536 bytes or more, and every line after it, is missing from the CSV** without the
+trim option, and no error is reported: `copy` reads the temporary buffer through a `bufio.Scanner` with its default
+buffer, `Scan` returns false at such a line (`ErrTooLong`), the loop ends and `copy` returns nil. A message is one line:
+255 fields of up to 255 bytes, a byte printed as up to four characters — 65 byte-array fields (or developer fields) of
+255 elements are enough. The messages of those lines do not come back: the full statement fails. -/
+theorem C19_copy_long_line_lost (o : Opts) (k : Nat) (ht : o.trim = false) (pre : List Txt) (l : Txt) (post : List Txt)
+    (hpre : ∀ x ∈ pre, x.length < scanLimit ∧ commasOutside false x ≤ k) (hl : l.length ≥ scanLimit) :
+    copyLines o k (pre ++ l :: post) = some (pre.map (padLine k)) :=
+  copyLines_long o k ht l post hl pre hpre
+
+/-- the witness class violates the full statement: one line of 65536 commas-free bytes -/
+theorem C19_copy_all_lines_full_false : ¬ C19_copy_all_lines_full := by
+  intro h
+  have h1 := h {} 0 [List.replicate scanLimit 97] (by
+    intro x hx
+    simp only [List.mem_singleton] at hx
+    subst hx
+    have : ∀ n, commasOutside false (List.replicate n 97) = 0 := by
+      intro n
+      induction n with
+      | zero => rfl
+      | succ n ih => simp [List.replicate_succ, commasOutside, ih]
+    rw [this])
+  have h2 := copyLines_long {} 0 rfl (List.replicate scanLimit 97) [] (by simp) [] (by intro x hx; cases hx)
+  simp only [List.nil_append] at h2
+  rw [h2] at h1
+  simp at h1
 
 end Fit.C19
